@@ -742,7 +742,7 @@ class Interp:
             if x['k'] in ('Assign', 'AssignOp'):
                 if x['lhs']['k'] != 'VarRef': raise Undecidable('loop assigning to something other than a local variable', e['loc'])
                 if x['lhs']['var'] in env: assigned.add(x['lhs']['var'])
-            if x['k'] in ('Break', 'Continue', 'Return') or (x['k'] == 'Match' and x.get('source') == 'TryDesugar'):
+            if x['k'] in ('Break', 'Continue', 'Return') or (x['k'] == 'Match' and 'TryDesugar' in str(x.get('source'))):
                 raise Undecidable('loop with an early exit', e['loc'])
         if len(assigned) != 1: raise Undecidable('loop carrying %d variables (only single-accumulator loops are analysed)' % len(assigned), e['loc'])
         acc = next(iter(assigned))
